@@ -100,6 +100,19 @@ def main():
             d3 = "abort:" + type(e).__name__
         if d3 != out[f"g{i}"] and not out[f"g{i}"].startswith("differs"):
             out[f"g{i}"] = f"differs-at-the-end-of-the-process:{out[f'g{i}']}/{d3}"
+    # staged with a write-out / read-back in between: loops, dictionary, read back, branches (every fourth
+    # input); what is read back and what is then built must not depend on the hash seed either
+    for i, succ in enumerate(inputs[::4]):
+        try:
+            st = export.mk_scfg(succ, [f"blk{j}" for j in range(len(succ))])
+            st.join_returns()
+            st.restructure_loop()
+            back, _ = SCFG.from_dict(st.to_dict())
+            d0 = h(export.canonical_dump(back))
+            back.restructure_branch()
+            out[f"r{i}"] = d0 + "/" + h(export.canonical_dump(back))
+        except Exception as e:  # noqa: BLE001
+            out[f"r{i}"] = "abort:" + type(e).__name__
     for i, src in enumerate(PROGRAMS):
         try:
             scfg = AST2SCFG(src)
